@@ -1184,3 +1184,82 @@ def print_parse(cases):
             r["error"] = type(e).__name__
         out.append(r)
     return {"results": out}
+
+
+# ------------------------------------------------------------------ C23 k-best / explain
+def kbest(text, convergence=None, explain=False):
+    import re
+    from problog.program import PrologString
+    from problog import get_evaluatable
+    f = get_evaluatable("kbest").create_from(PrologString(text))
+    kw = {}
+    if convergence is not None:
+        kw["convergence"] = convergence
+    lines = []
+    if explain:
+        kw["explain"] = lines
+    res = f.evaluate(**kw)
+    out = {}
+    for k, v in res.items():
+        if isinstance(v, tuple):
+            out[str(k)] = [float(v[0]), float(v[1])]
+        else:
+            out[str(k)] = [float(v), float(v)]
+    # explanation blocks in evaluation order: one block per query
+    blocks, cur = [], None
+    for ln in lines:
+        ln = ln.strip()
+        if not ln:
+            if cur is not None:
+                blocks.append(cur)
+                cur = None
+            continue
+        m = re.match(r"^(.*?)\s*:-\s*(.*)\.\s*%\s*P=([-0-9.eE+]+)\s*$", ln)
+        if m:
+            if cur is None:
+                cur = {"heads": [], "ps": [], "kind": "proofs"}
+            cur["heads"].append(m.group(1).strip())
+            cur["ps"].append(float(m.group(3)))
+            continue
+        m = re.match(r"^(.*?)\s*:-\s*(fail|true)\.$", ln)
+        if m:
+            if cur is not None:
+                blocks.append(cur)
+                cur = None
+            blocks.append({"heads": [m.group(1).strip()], "ps": [], "kind": m.group(2)})
+            # a ':- fail.' line emitted after an empty search is followed by a blank line
+            continue
+        blocks.append({"heads": [], "ps": [], "kind": "unparsed", "line": ln})
+    if cur is not None:
+        blocks.append(cur)
+    return {"bounds": out, "order": [str(k) for k in res], "blocks": blocks}
+
+
+# ------------------------------------------------------------------ C24 learning from interpretations
+def lfi_trace(text, examples, iters=6, opts=None, seed=0):
+    """Step LFI `iters` times; after each step record the reported log-likelihood and all parameters."""
+    import random
+    import logging
+    from problog.program import PrologString
+    from problog.logic import Term
+    from problog.learning.lfi import LFIProblem
+    logging.getLogger("problog_lfi").setLevel(logging.CRITICAL)
+    random.seed(seed)
+    ex = [[(Term.from_string(a) if hasattr(Term, "from_string") else Term(a), bool(v)) for a, v in e] for e in examples]
+    lfi = LFIProblem(PrologString(text), ex, max_iter=iters, **(opts or {}))
+    lfi.prepare()
+
+    def weights():
+        out = []
+        for i, name in enumerate(lfi.names):
+            for key, w in lfi.get_weights(i):
+                out.append([i, str(name.with_probability()) if hasattr(name, "with_probability") else str(name), str(key), float(w)])
+        return out
+    groups = [[float(av), [int(i) for i in idx]] for av, idx in lfi._adatoms if idx]
+    steps = [{"ll": None, "w": weights()}]
+    ignored = 0
+    for _ in range(iters):
+        ll, _cs = lfi.step()
+        steps.append({"ll": float(ll), "w": weights()})
+    return {"names": [str(n) for n in lfi.names], "groups": groups, "steps": steps,
+            "nex": sum(len(e.n) if hasattr(e.n, "__len__") else 1 for e in lfi._compiled_examples), "model": lfi.get_model()}
